@@ -264,6 +264,12 @@ func.func @f(%a: memref<{n}xi64>, %b: memref<{n}xi64>, %c: memref<{n}xi64>) {{
         r, c = shape
         t = f"memref<{r}x{c}xi64>"
         return dart_operation_src("alu", (16,)).replace("affine_map<(d0) -> (d0)>", "affine_map<(d0, d1) -> (d0, d1)>").replace("memref<16xi64>", t)
+    if kind == "alu2d_b":
+        # 2-D element-wise add whose second input is read with an offset in a dimension that is not tiled
+        r, c, pat, tb = shape
+        return dart_operation_src("alu2d", (r, c)).replace("affine_map<(d0, d1) -> (d0, d1)>, affine_map<(d0, d1) -> (d0, d1)>, affine_map<(d0, d1) -> (d0, d1)>",
+                                                           f"affine_map<(d0, d1) -> (d0, d1)>, affine_map<(d0, d1) -> ({pat})>, affine_map<(d0, d1) -> (d0, d1)>") \
+            .replace(f"%b: memref<{r}x{c}xi64>", f"%b: {tb}").replace(f"(memref<{r}x{c}xi64>, memref<{r}x{c}xi64>, memref<{r}x{c}xi64>) -> ()", f"(memref<{r}x{c}xi64>, {tb}, memref<{r}x{c}xi64>) -> ()")
     if kind == "alu_b":
         # second input read through an arbitrary access map (fixed row of a 2-D buffer, offsets, non-linear indices)
         n, pat, tb = shape
@@ -365,6 +371,9 @@ def run(chk):
     cases.append(("multi", (("alu2d", (16, 1)), ("alu2d", (1, 16)), ("alu2d", (4, 4)), ("alu2d", (16, 1)))))
     for rc in ((1, 16), (16, 1), (4, 8), (1, 1)):
         cases.append(("alu2d", rc))
+    cases.append(("alu2d_b", (6, 16, "d0 + 1, d1", "memref<7x16xi64>")))
+    cases.append(("alu2d_b", (6, 16, "d0, d1 + 4", "memref<6x20xi64>")))
+    cases.append(("alu2d_b", (3, 8, "d0 + 2, d1 + 1", "memref<5x9xi64>")))
     cases.append(("gemmx_a", (16, 16, 16, "2, d0, d2", "memref<4x16x16xi8>")))
     cases.append(("gemmx_a", (16, 16, 16, "d0, d2, 1", "memref<16x16x2xi8>")))
     cases.append(("gemmx_a", (16, 16, 16, "d0 + 1, d2", "memref<17x16xi8>")))
